@@ -17,6 +17,9 @@ type indexTable struct {
 		Function  string `json:"function"`
 		Expr      string `json:"expr"`
 		Invariant string `json:"invariant"`
+		// obligations of other rules ("RULE:construct prefix") that the reviewed argument counts on: the entry holds
+		// only while every one of them is discharged on the tree at hand
+		RestsOn []string `json:"rests_on"`
 	} `json:"entries"`
 	// invariants attached to a type: while the struct's only bool field is true its only slice field has ≥ min_len elements
 	TypeInvariants []struct {
@@ -84,6 +87,10 @@ func init() {
 					if (e.Function == fn || bareFuncName(e.Function) == bareFuncName(fn)) && (e.Expr == site.Expr || (alt != "" && e.Expr == alt)) {
 						used[i] = true
 						matched = true
+						if broken := brokenSupport(c, e.RestsOn); broken != "" {
+							s.Unknown(key, pos, "the reviewed invariant for this expression counts on "+broken+", which does not hold on this tree: possible index-out-of-range panic")
+							break
+						}
 						s.OK(key, pos, "reviewed invariant: "+e.Invariant)
 						break
 					}
@@ -134,6 +141,46 @@ func init() {
 		},
 	})
 	_ = strings.Join
+}
+
+// brokenSupport: the first obligation among those a reviewed entry rests on ("RULE:construct prefix") that is not
+// discharged on this tree ("" if all hold, or if there are none).
+func brokenSupport(c *Ctx, restsOn []string) string {
+	for _, ro := range restsOn {
+		i := strings.Index(ro, ":")
+		if i < 0 {
+			continue
+		}
+		rule, prefix := ro[:i], ro[i+1:]
+		obs := c.Memo("support:"+rule, func() interface{} {
+			for _, r := range All() {
+				if r.Name == rule {
+					saved := curCtx
+					o, internal := RunRule(c, r)
+					curCtx = saved
+					if internal != "" {
+						o = append(o, core.Obligation{Rule: rule, Construct: prefix + "<internal>", Verdict: core.Undecided})
+					}
+					return o
+				}
+			}
+			return []core.Obligation{{Rule: rule, Construct: prefix + "<no such rule>", Verdict: core.Undecided}}
+		}).([]core.Obligation)
+		n := 0
+		for _, o := range obs {
+			if !strings.HasPrefix(o.Construct, prefix) {
+				continue
+			}
+			n++
+			if o.Verdict != core.Discharged {
+				return rule + " " + o.Construct
+			}
+		}
+		if n == 0 {
+			return rule + " " + prefix + "… (no such obligation on this tree)"
+		}
+	}
+	return ""
 }
 
 // funcByBareName: the tree has a function with the bare name of the reviewed one.
